@@ -168,39 +168,40 @@ where
     Ok(())
 }
 
-pub(crate) fn quoted_string<W: io::Write>(w: &mut W, txt: &[u8]) -> io::Result<()> {
-    let mut cut = txt.len();
-    let mut cutchar = b'\0';
-    for (pos, chr) in txt.iter().enumerate() {
-        let chr = *chr;
-        if chr <= b'\\' && (chr == b'\n' || chr == b'\r' || chr == b'\\' || chr == b'"') {
-            cut = pos;
-            cutchar = chr;
-            break;
+pub(crate) fn quoted_string<W: io::Write>(w: &mut W, mut txt: &[u8]) -> io::Result<()> {
+    loop {
+        let mut cut = txt.len();
+        let mut cutchar = b'\0';
+        for (pos, chr) in txt.iter().enumerate() {
+            let chr = *chr;
+            if chr <= b'\\' && (chr == b'\n' || chr == b'\r' || chr == b'\\' || chr == b'"') {
+                cut = pos;
+                cutchar = chr;
+                break;
+            }
         }
-    }
-    w.write_all(&txt[..cut])?;
-    if cut < txt.len() {
-        match cutchar {
-            b'\n' => {
-                w.write_all(b"\\n")?;
+        w.write_all(&txt[..cut])?;
+        if cut < txt.len() {
+            match cutchar {
+                b'\n' => {
+                    w.write_all(b"\\n")?;
+                }
+                b'\r' => {
+                    w.write_all(b"\\r")?;
+                }
+                b'"' => {
+                    w.write_all(b"\\\"")?;
+                }
+                b'\\' => {
+                    w.write_all(b"\\\\")?;
+                }
+                _ => unreachable!(),
             }
-            b'\r' => {
-                w.write_all(b"\\r")?;
-            }
-            b'"' => {
-                w.write_all(b"\\\"")?;
-            }
-            b'\\' => {
-                w.write_all(b"\\\\")?;
-            }
-            _ => unreachable!(),
+        };
+        if cut + 1 >= txt.len() {
+            return Ok(());
         }
-    };
-    if cut + 1 >= txt.len() {
-        Ok(())
-    } else {
-        quoted_string(w, &txt[cut + 1..])
+        txt = &txt[cut + 1..];
     }
 }
 
